@@ -185,8 +185,8 @@ theorem deliverParked_of_no_peers (m : M) (p : Parked) (h : m.1.peers = []) : (d
 /-- Once in the restart loop, waiting (`nop` events, each running 12 more links of the chain) does not end it. -/
 theorem flap_step_nop (s : St) (p : Parked) (kn : Nat → Bool) (h : Flap s) : Flap (step s p kn .nop).1.st := by
   have h0 : Flap (handled s p kn .nop) := by
-    obtain ⟨a1, a2, a3, a4, a5, a6, a7, a8, a9, a10⟩ := h
-    exact ⟨a1, a2, a3, a4, a5, a6, a7, a8, a9, a10⟩
+    obtain ⟨a1, a2, a3, a4, a5, a6, a7, a8, a9, a10, a11⟩ := h
+    exact ⟨a1, a2, a3, a4, a5, a6, a7, a8, a9, a10, a11⟩
   have h1 := flap_forever 12 (handle { s with sto := [], mayStart := [], closedDl := [], mayStartI := false } p kn .nop).1 h0
   rw [step_st]
   split
